@@ -31,6 +31,29 @@ var g = d.T{X: 4}
 """,
     # a source line longer than bufio.Scanner's 64 KiB token limit, with violations below it
     "longline": "package gen\n\nimport \"m/d\"\n\nvar blob = \"" + "x" * 70000 + "\"\n\nfunc f(p *d.T) {\n\tp.X = 1\n\n\n\n\tp.X = 2\n\t_ = new(d.T)\n}\n",
+    # functions without a body (assembly-backed / linknamed) next to uses of annotated types
+    "bodyless": """package gen
+
+import (
+	_ "unsafe"
+
+	"m/d"
+)
+
+//go:linkname nanotime runtime.nanotime
+func nanotime() int64
+
+//go:linkname fastrand runtime.fastrand
+//go:nosplit
+func fastrand() uint32
+
+func f(p *d.T) int64 {
+	p.X = 1
+	_ = d.T{X: int(fastrand())}
+	_ = d.TF(2) + d.PF(3)
+	return nanotime()
+}
+""",
     # generic code using the annotated types
     "generic": """package gen
 
